@@ -55,7 +55,7 @@ def check(ctx, src):
     ktext = " ".join(str(flat(fn)) for fn in kfns)
     uses_ws = any(isinstance(c, ast.Call) and dotted(c.func) == "isnormalizedspace" for fn in kfns for c in ast.walk(fn))
     uses_ni = "HyReader.NON_IDENT" in ktext
-    uses_dot = "'.' in" in ktext
+    uses_dot = any(isinstance(c, ast.Compare) and isinstance(c.ops[0], (ast.In, ast.NotIn)) and isinstance(c.left, ast.Constant) and c.left.value == "." for fn in kfns for c in ast.walk(fn))
     other_ws = [c for fn in kfns for c in ast.walk(fn) if isinstance(c, ast.Call) and isinstance(c.func, ast.Attribute) and c.func.attr in ("isspace", "strip", "split")]
     raises = [r for fn in kfns for r in ast.walk(fn) if isinstance(r, ast.Raise)]
     verdict = None if not raises else (uses_ws and uses_ni and uses_dot and not other_ws)
@@ -73,10 +73,18 @@ def check(ctx, src):
                   witness=f"{cn}('a ]] b', brackets='') is accepted but does not read back", detail="brackets is not None and ]D] in value")
     ai = hr.func("as_identifier")
     ctx.require(ai is not None, "as_identifier not found")
-    g = next((n for n in ai.body if isinstance(n, ast.If) and norm(n.test) == "reader is None"), None)
-    t = flat(g) if g is not None else ""
-    ctx.check(g is not None and pm.find(g, "if not ident or ident[0] in ':#' or any((isnormalizedspace(c) for c in ident)) or HyReader.NON_IDENT.intersection(ident):\n    raise ValueError(___)") is not None, "CTOR-IDENT", f"{HR}|as_identifier|reader-less arm",
-              "the reader-less validity test of as_identifier changed", HR, ai.lineno, witness="Symbol('a b') or Symbol(':a') succeeds", detail="empty, leading : or #, whitespace, NON_IDENT")
+    # the reader-less arm: a `raise ValueError` of as_identifier itself whose path condition contains `reader is None`; the
+    # disjunction it is guarded by must name the four tests
+    rl = [r for r in pyq.walk_no_nested(ai) if isinstance(r, ast.Raise) and any(a == "reader is None" for a in pyq.atoms(r, ai))]
+    if not rl:
+        ctx.unres("CTOR-IDENT", f"{HR}|as_identifier|reader-less arm", "the reader-less validity test of as_identifier was not recognised")
+    else:
+        disj = [a.node for a in pyq.atoms(rl[0], ai) if isinstance(a.node, ast.BoolOp) and isinstance(a.node.op, ast.Or)]
+        parts = [norm(v) for d in disj for v in d.values]
+        want = ["not ident", "ident[0] in ':#'", "any((isnormalizedspace(c) for c in ident))", "HyReader.NON_IDENT.intersection(ident)"]
+        missing = [w for w in want if not any(p_ == w for p_ in parts)]
+        ctx.decide("CTOR-IDENT", f"{HR}|as_identifier|reader-less arm", (not missing) if disj else None,
+                   f"the reader-less validity test of as_identifier no longer rejects on {missing}", HR, rl[0].lineno, witness="Symbol('a b') or Symbol(':a') succeeds", detail="empty, leading : or #, whitespace, NON_IDENT")
     order = [norm(n.body[0]) for n in ai.body if isinstance(n, ast.Try)]
     ctx.check(order[:2] == ["return Integer(ident)", "return Float(ident)"], "CTOR-IDENT", f"{HR}|as_identifier|numeric first", "numeric readings must be tried before the symbol reading", HR, ai.lineno, witness="Symbol('5') succeeds", detail="Integer, Float, Complex first")
     ctx.assume("equivalence of the predicates on all strings is value-level; only the single-source-of-truth structure is decided")
